@@ -345,6 +345,7 @@ void ThreadPool::resizeLocked(ssize_t sn) {
       DISPENSO_VERIF_EVENT("pool.drain.ring", this, i, 0);
       task();
       workRemaining_.fetch_sub(1, std::memory_order_relaxed);
+      DISPENSO_VERIF_EVENT("pool.wr.sub", this, 1, 5);
     }
     DISPENSO_VERIF_EVENT("pool.drain.ring.done", this, i, 0);
   }
@@ -354,6 +355,7 @@ void ThreadPool::resizeLocked(ssize_t sn) {
       DISPENSO_VERIF_EVENT("pool.drain.steal", this, i, 0);
       task();
       workRemaining_.fetch_sub(1, std::memory_order_relaxed);
+      DISPENSO_VERIF_EVENT("pool.wr.sub", this, 1, 5);
     }
     DISPENSO_VERIF_EVENT("pool.drain.steal.done", this, i, 0);
   }
@@ -471,6 +473,7 @@ ThreadPool::~ThreadPool() {
       DISPENSO_VERIF_EVENT("pool.drain.ring", this, i, 1);
       task();
       workRemaining_.fetch_sub(1, std::memory_order_relaxed);
+      DISPENSO_VERIF_EVENT("pool.wr.sub", this, 1, 5);
     }
     DISPENSO_VERIF_EVENT("pool.drain.ring.done", this, i, 1);
   }
@@ -480,6 +483,7 @@ ThreadPool::~ThreadPool() {
       DISPENSO_VERIF_EVENT("pool.drain.steal", this, i, 1);
       task();
       workRemaining_.fetch_sub(1, std::memory_order_relaxed);
+      DISPENSO_VERIF_EVENT("pool.wr.sub", this, 1, 5);
     }
     DISPENSO_VERIF_EVENT("pool.drain.steal.done", this, i, 1);
   }
